@@ -78,7 +78,7 @@ impl Monitor for C05 {
             Tier::Thorough => 1 + 6 * (2 * SPAN as u64 + 1),
             Tier::Sanitizer => 2,
         };
-        vec![gen("arith", arith), gen("sessions", tier.pick(20_000, 2_000_000, 6)), gen("rx2-override", tier.pick(540, 20_000, 2)), gen("up-counter-exhausted", tier.pick(540, 20_000, 2)), gen("size-boundary", 3 * 9 * 8 * 2 * tier.pick(1, 20, 0)), gen("buffer-255", tier.pick(90, 2_000, 0))]
+        vec![gen("arith", arith), gen("sessions", tier.pick(20_000, 2_000_000, 6)), gen("rx1-offset", 9 * 3 * 8 * 8 * tier.pick(1, 6, 0)), gen("rx2-override", tier.pick(540, 20_000, 2)), gen("up-counter-exhausted", tier.pick(540, 20_000, 2)), gen("size-boundary", 3 * 9 * 8 * 2 * tier.pick(1, 20, 0)), gen("buffer-255", tier.pick(90, 2_000, 0))]
     }
     fn rule(&self) -> String {
         "arith: verif_next_fcnt_down(last, wire) for all 2^16 wire values per `last` (quick: stride 97 within +-70000 of each of 6 boundaries plus the 129 values around each and None; thorough: every value within +-70000), compared with the statement's rule in 64-bit arithmetic. sessions: devices (nb/async/async+ClassC, 9 regions) with sessions created at chosen counters receive 40-120 frames (fresh gaps 1/2/16383/16384, 16385+, replay, stale, other-epoch, bit-flip, foreign key, oversized, MAC in FOpts/port 0, confirmed) in RX1/RX2/Class C; after every transaction the accepted counter, response, delivered payloads and MAC answers are compared with a reference acceptance model. Class = (start class, frame class, verdict, window kind, front-end).".into()
@@ -94,7 +94,7 @@ impl Monitor for C05 {
         if tier == Tier::Sanitizer {
             vec!["arith_accept", "accepted"]
         } else {
-            vec!["arith_accept", "arith_reject", "accepted", "rejected_replay", "rejected_far_future", "rejected_bad_mic", "rejected_oversize", "accepted_classc", "mac_answered", "epoch_crossed", "exact_max_delivered", "downlink_left_in_queue"]
+            vec!["arith_accept", "arith_reject", "accepted", "rejected_replay", "rejected_far_future", "rejected_bad_mic", "rejected_oversize", "accepted_classc", "mac_answered", "epoch_crossed", "exact_max_delivered", "downlink_left_in_queue", "rx1_offset_small_frame_accepted"]
         }
     }
     fn exhaustive(&self, _tier: Tier) -> bool {
@@ -113,6 +113,7 @@ impl Monitor for C05 {
                 arith(last, col);
             }
             "sessions" => session_case(idx, rng, col),
+            "rx1-offset" => rx1_offset_case(idx, rng, col),
             "rx2-override" => rx2_override_case(idx, rng, col),
             "up-counter-exhausted" => exhausted_case(idx, rng, col),
             "size-boundary" => size_boundary_case(idx, rng, col),
@@ -268,7 +269,10 @@ fn build_frame(net: &Net, last: Option<u32>, kind: FK, rng: &mut Prng) -> Option
     } else {
         net.clone()
     };
-    let mut bytes = key_net.downlink(&Down { fcnt, confirmed, ack: rng.bool(), adr: rng.bool(), f_pending: rng.bool(), f_opts: &fopts, port, payload: &payload });
+    // one frame in eight carries RFU bits in its MHDR (a network of a later specification may set them): type,
+    // direction, counter and MIC (over the MHDR as sent) make it as authentic and as fresh as without
+    let mhdr_rfu = if rng.chance(1, 8) { rng.range(1, 8) as u8 } else { 0 };
+    let mut bytes = key_net.downlink(&Down { fcnt, confirmed, ack: rng.bool(), adr: rng.bool(), f_pending: rng.bool(), f_opts: &fopts, port, payload: &payload, mhdr_rfu });
     if kind == FK::BitFlip {
         // flip a bit anywhere except MHDR (keeps it a data downlink) and FCnt/FOptsLen (which
         // would change the class); DevAddr flips are excluded too (foreign-address policy)
@@ -597,6 +601,62 @@ fn rx2_override_case(idx: u64, rng: &mut Prng, col: &mut Collector) {
         col.violation(&format!("C05|rx2-override|oversized-accepted|{}|{}", if reg.fixed() { "fixed" } else { "dynamic" }, front.name()), "a frame far beyond the size limit of the plan's default RX2 rate was accepted in an RX2 window at that rate", ctx);
     } else {
         col.event("rx2_default_big_frame_dropped");
+    }
+}
+
+
+/// RX1 at every (uplink data rate, RX1DROffset) pair the region allows - including the pairs whose table
+/// cell names a rate the device does not implement, where it listens at a substitute rate: a small
+/// authentic fresh frame fits the size limit of whatever rate RX1 is opened at and must be accepted.
+fn rx1_offset_case(idx: u64, rng: &mut Prng, col: &mut Collector) {
+    let front = FRONTS[(idx % 3) as usize];
+    let reg = regions::ALL[((idx / 3) % 9) as usize];
+    let off = ((idx / 27) % 8) as u8;
+    let dslot = ((idx / 216) % 8) as usize;
+    if off > reg.max_rx1_offset() {
+        return;
+    }
+    let opts = DevOpts { rng_seed: Some(rng.next_u64()), ..Default::default() };
+    let Some(mut link): Option<Link> = Link::abp(front, reg, rng, &opts) else {
+        col.event("harness_session_json_rejected");
+        return;
+    };
+    let (f2, d2) = reg.rx2_default();
+    let t = link.deliver_mac(&rx_param_setup_req((off << 4) | d2, f2 / 100), rng.bool(), rng.bool());
+    if let Resp::Panic(m, l) = &t.resp {
+        col.violation(&format!("C05|panic|rx1-offset|{}", short_loc(l)), "device panicked", json!({"msg": m, "loc": l}));
+        return;
+    }
+    if link.dev.snapshot().rx1_dr_offset != off {
+        col.event("rx1_offset_not_taken");
+        return;
+    }
+    let drs = crate::c12::uplink_drs(reg);
+    let dr = drs[dslot % drs.len()];
+    link.dev.set_datarate(dr);
+    // MACPayload of 8..12 octets: within the limit of every rate of every plan
+    let plen = rng.below(5) as usize;
+    let payload = rng.bytes(plen);
+    let fcnt = link.fdown + 1 + rng.below(3) as u32;
+    let frame = link.net.downlink(&Down { fcnt, port: Some(rng.range(1, 200) as u8), payload: &payload, confirmed: rng.chance(1, 4), ..Default::default() });
+    let before = link.dev.fcnt_down();
+    let t = link.txn(&[1, 2], 7, false, &Script::rx1(frame.clone()));
+    if let Resp::Panic(m, l) = &t.resp {
+        col.violation(&format!("C05|panic|rx1-offset|{}", short_loc(l)), "device panicked", json!({"msg": m, "loc": l}));
+        return;
+    }
+    let after = link.dev.fcnt_down();
+    let delivered = link.dev.take_downlinks();
+    let accepted = matches!(t.resp, Resp::DownlinkReceived(_));
+    col.eval(&format!("rx1-offset|{}|{}|off={}|dr{}|{}", reg.name(), front.name(), off, dr, t.resp.kind()));
+    if !accepted || after != Some(Some(fcnt)) || delivered.len() != 1 || delivered[0].1 != payload {
+        col.violation(
+            &format!("C05|rx1-offset|small-frame-not-accepted|{}|off={}|updr={}", reg.name(), off, dr),
+            "an authentic fresh frame of a few octets, received in RX1, was not accepted",
+            json!({"region": reg.name(), "front": front.name(), "rx1_dr_offset": off, "uplink_dr": dr, "frame_len": frame.len(), "response": format!("{:?}", t.resp), "fcnt_down_before": before, "fcnt_down_after": after}),
+        );
+    } else {
+        col.event("rx1_offset_small_frame_accepted");
     }
 }
 
